@@ -33,7 +33,17 @@ def design_cfgs(tier):
 
 # ---------------------------------------------------------------- replay of exported behaviours
 VARIANTS = [('float64', 'flat', 1.0), ('float32', 'flat', 0.5), ('float64', 'col', 0.25), ('int64', 'flat', 2.0),
-            ('float64', 'scalar', 1.0)]
+            ('complex128', 'flat', 1.0), ('float64', 'scalar', 1.0)]
+# complex variant: component v is stored as v + (2v+1)j; linear interpolation commutes with this affine map, so the
+# imaginary part of every answer must be 2*re+1 of the (exactly known) real part
+
+
+def _mk(vals, dtype, shape):
+    import numpy as np
+    a = np.array(vals, dtype='float64')
+    if dtype.startswith('complex'):
+        a = a + 1j * (2 * a + 1)
+    return a.astype(dtype).reshape(shape)
 
 
 def _shape(k, mode):
@@ -51,14 +61,14 @@ def _replay_one(case, variant, rng):
     k = len(case['y0'])
     shape = _shape(k, mode)
     DDEHistory._INITIAL_CAPACITY = case['initcap']
-    y0 = np.array(case['y0'], dtype=dtype).reshape(shape)
+    y0 = _mk(case['y0'], dtype, shape)
     h = DDEHistory(y0, t0=case['t0'] * ts, max_steps=(case['maxsteps'] or None))
     y0[...] = 55555                       # the constructor must have copied as well
     a = np.zeros(shape, dtype=dtype)      # the single array object the caller keeps re-using
     status = 'init'
     for c in case['calls']:
         if c['a'] == 'update':
-            a[...] = np.array(c['y'], dtype=dtype).reshape(shape)
+            a[...] = _mk(c['y'], dtype, shape)
             try:
                 h.update(c['t'] * ts, a)
                 status = 'ok'
@@ -74,9 +84,12 @@ def _replay_one(case, variant, rng):
     orders = [qs, qs[::-1], rng.sample(qs, len(qs))]
     for order in orders:
         for q in order:
-            r = np.asarray(h(q['t'] * ts), dtype='float64').ravel()
+            raw = np.asarray(h(q['t'] * ts)).ravel()
             exp = [Fraction(n, d) for n, d in q['r']]
-            obs = [Fraction(float(x)) for x in r]
+            obs = [Fraction(float(x.real)) for x in raw]
+            if dtype.startswith('complex'):
+                exp = exp + [2 * e + 1 for e in exp]
+                obs = obs + [Fraction(float(x.imag)) for x in raw]
             if obs != exp:
                 bad.append(dict(what='query', t=q['t'], observed=[str(x) for x in obs], expected=[str(x) for x in exp],
                                 variant=list(variant)))
@@ -110,11 +123,14 @@ def record_traces(job):
     traces = []
     for tno in range(job['n']):
         k = rng.choice([1, 1, 2, 3])
-        dtype, mode, ts = rng.choice(VARIANTS[:4])
+        dtype, mode, ts = rng.choice(VARIANTS[:5])
+        cx = dtype.startswith('complex')
         shape = _shape(k, mode)
         t0 = rng.choice([0, 0, 3, -2])
         y0v = [rng.randint(-8, 8) for _ in range(k)]
-        h = DDEHistory(np.array(y0v, dtype=dtype).reshape(shape), t0=t0 * ts, max_steps=(job['maxsteps'] or None))
+        h = DDEHistory(_mk(y0v, dtype, shape), t0=t0 * ts, max_steps=(job['maxsteps'] or None))
+        if cx:      # log real and imaginary parts as 2k components
+            y0v = y0v + [2 * v + 1 for v in y0v]
         a = np.zeros(shape, dtype=dtype)
         evs = []
         t = t0
@@ -122,22 +138,22 @@ def record_traces(job):
         for _ in range(nup):
             t += rng.choice([1, 2, 4, 4, 8])
             v = [rng.randint(-8, 8) for _ in range(k)]
-            a[...] = np.array(v, dtype=dtype).reshape(shape)
+            a[...] = _mk(v, dtype, shape)
             try:
                 h.update(t * ts, a); st = 'ok'
             except IndexError:
                 st = 'refused'
-            evs.append(dict(ev='update', t=t, y=v, status=st))
+            evs.append(dict(ev='update', t=t, y=(v + [2 * x + 1 for x in v]) if cx else v, status=st))
             if st == 'refused':
                 t -= 0  # time of a refused update is simply not recorded; later updates still increase
             a[...] = 55555
             evs.append(dict(ev='mutate'))
             for _ in range(rng.choice([0, 1, 1, 2, job.get('qmax', 3)])):
                 qt = rng.randint(t0 - 2, t + 2)
-                r = np.asarray(h(qt * ts), dtype='float64').ravel()
-                fr = [Fraction(float(x)) for x in r]
+                raw = np.asarray(h(qt * ts)).ravel()
+                fr = [Fraction(float(x.real)) for x in raw] + ([Fraction(float(x.imag)) for x in raw] if cx else [])
                 if any(f.denominator > 64 or abs(f.numerator) > 10 ** 6 for f in fr):
-                    evs.append(dict(ev='query', t=qt, r=[[999999, 1]] * k))   # not representable: will be rejected
+                    evs.append(dict(ev='query', t=qt, r=[[999999, 1]] * len(fr)))   # not representable: will be rejected
                 else:
                     evs.append(dict(ev='query', t=qt, r=[[f.numerator, f.denominator] for f in fr]))
         traces.append(dict(tid=f"{job['name']}-{job['seed']}-{tno}", t0=t0, y0=y0v, events=evs,
